@@ -54,6 +54,7 @@ type Op struct {
 	CID    int32    `json:"cid,omitempty"`
 	Notify string   `json:"notify,omitempty"`
 	PDU    bool     `json:"pdu,omitempty"`
+	V6     bool     `json:"v6,omitempty"`    // consumer identified by IPv6 address and FQDN instead of an IPv4 address
 	NoPSI  bool     `json:"nopsi,omitempty"` // create: pDUSessionChargingInformation without pduSessionInformation (rejected after the record counter moved)
 	OTE    string   `json:"ote,omitempty"`   // create: one-time event of this type (IEC / PEC); opens no session
 	Raw    string   `json:"raw,omitempty"` // raw JSON body override
@@ -106,6 +107,14 @@ func (o Op) Request(supi string) models.ChfConvergedChargingChargingDataRequest 
 		ChargingId:               o.CID,
 		NfConsumerIdentification: &models.ChfConvergedChargingNfIdentification{NFName: o.Cons, NodeFunctionality: "SMF",
 			NFIPv4Address: "10.0.0.7", NFPLMNID: &models.PlmnId{Mcc: "208", Mnc: "93"}},
+	}
+	if o.K != "create" && o.Notify != "" {
+		r.NotifyUri = o.Notify
+	}
+	if o.V6 {
+		r.NfConsumerIdentification.NFIPv4Address = ""
+		r.NfConsumerIdentification.NFIPv6Address = "2001:db8::7"
+		r.NfConsumerIdentification.NFFqdn = "smf7.example.org"
 	}
 	if o.K == "create" {
 		r.NotifyUri = o.Notify
